@@ -4,7 +4,8 @@
 From Coq Require Import String.
 From Coq Require Import List NArith Bool.
 From Wpull Require Import Lib.Decimal Lib.FsModel Model.Warc Model.WarcText
-  Proofs.WarcParse Proofs.WarcSteps Proofs.WarcInv Proofs.WarcLife Proofs.WarcSess Proofs.WarcThms Proofs.WarcToy.
+  Proofs.WarcParse Proofs.WarcSteps Proofs.WarcInv Proofs.WarcLife Proofs.WarcSess Proofs.WarcThms Proofs.WarcSniff
+  Proofs.WarcToy.
 Import ListNotations.
 Open Scope N_scope.
 
@@ -69,6 +70,43 @@ Theorem C07_fields_agree :
 Proof. exact line_fields. Qed.
 Print Assumptions C07_fields_agree.
 
+(* Status code and MIME type (partial).  For EVERY response block that begins with
+   a header block of LF-terminated lines - status line [sl], field lines [fl], the
+   empty line [b] (CR LF or LF) - preceded by any number of interim (1xx, not 101)
+   header blocks [pres] and followed by any payload [body], however long the
+   header block is: the status written to the CDX is the decimal status code of
+   the FINAL status line, and the MIME type is the type/subtype token pair at the
+   start of the first Content-Type value among exactly the field lines of that
+   header block ('-' when there is none).
+   Partial: the field lines are interpreted by the model of NameValueRecord.parse
+   ([fields_parse]: unfolding, name normalisation), not by an independent
+   RFC 7230 field grammar; that part is tied by the correspondence (CDX MIME type
+   vs the Content-Type the generator sent). *)
+Theorem C07_status_mime_partial :
+  forall (pres : list (bytes * list bytes * bytes)) sl fl b code body,
+    Forall interim_block pres ->
+    Forall line_ok (sl :: fl) -> blank_ok b ->
+    parse_status_code sl = Some code -> is_interim code = false ->
+    sniff (concat (map block_bytes pres) ++ hblock sl fl b ++ body)
+    = (match parse_mimetype (match hget s_content_type (fields_parse (lf_lines fl ++ b)) with
+                             | Some v => v | None => [] end) with
+       | Some m => m | None => dash end,
+       dec code).
+Proof. exact sniff_spec. Qed.
+Print Assumptions C07_status_mime_partial.
+
+(* ... where a status line 'HTTP/' digits '.' digits, blanks, three digits, anything
+   has the status code those three digits spell. *)
+Theorem C07_status_code_of_status_line :
+  forall d1 d2 sp a b c rest,
+    d1 <> [] -> forallb is_digit d1 = true -> d2 <> [] -> forallb is_digit d2 = true ->
+    sp <> [] -> forallb is_sp_ht sp = true ->
+    is_digit a = true -> is_digit b = true -> is_digit c = true ->
+    parse_status_code (s_http ++ d1 ++ 46 :: d2 ++ sp ++ a :: b :: c :: rest)
+    = Some ((a - 48) * 100 + (b - 48) * 10 + (c - 48)).
+Proof. exact parse_status_code_canonical. Qed.
+Print Assumptions C07_status_code_of_status_line.
+
 (* Non-vacuity: in the toy lifetime of Props/C05.v (plain and compressed) exactly
    one CDX line is written - for the response record, none for the revisit - and
    it addresses offset 571, length 401 (plain) of the first numbered file. *)
@@ -86,6 +124,23 @@ Qed.
 (* The sniffing function of the real recorder (get_http_header + parse_mimetype,
    Model/WarcText.v) on concrete header blocks: multi-line headers, LF-only line
    ends, a 5 kB header, media types with '+', '.', '_', an interim response. *)
+Example C07_status_mime_nonvacuous :
+  let pres := [(bs "HTTP/1.1 100 Continue" ++ [13], [] : list bytes, [13; 10])] in
+  let sl := bs "HTTP/1.1 404 Not Found" ++ [13] in
+  let fl := [bs "Server: x" ++ [13]; bs "content-TYPE:  image/svg+xml;" ++ [13]; bs "  charset=utf-8" ++ [13]] in
+  Forall interim_block pres /\ Forall line_ok (sl :: fl) /\ blank_ok [13; 10]
+  /\ parse_status_code sl = Some 404 /\ is_interim 404 = false
+  /\ sniff (concat (map block_bytes pres) ++ hblock sl fl [13; 10] ++ bs "payload") = (bs "image/svg+xml", bs "404").
+Proof.
+  cbv zeta. split; [|split; [|split; [|split; [|split]]]]; try (vm_compute; reflexivity).
+  - constructor; [|constructor]. split; [|split].
+    + constructor; [|constructor]. split; [reflexivity|split; discriminate].
+    + left. reflexivity.
+    + exists 100. split; reflexivity.
+  - repeat (constructor; [split; [reflexivity|split; discriminate]|]). constructor.
+  - left. reflexivity.
+Qed.
+
 Example C07_sniff_examples :
   sniff (bs "HTTP/1.1 200 OK" ++ crlf ++ bs "Content-Type: image/svg+xml; charset=x" ++ crlf ++ crlf ++ bs "body")
     = (bs "image/svg+xml", bs "200")
